@@ -289,6 +289,23 @@ pub fn run(run: &Run) {
         };
         check_pair(run, p, &x, &y, l)
     });
+    // distinct equal-length strings that collide under common 32-bit hashes must still compare as different
+    run.par("fingerprint_collisions", true, |tid, _n, l| {
+        if tid != 0 {
+            return;
+        }
+        for (_, a, b) in crate::gens::fingerprint_collisions().iter() {
+            for p in PROFS {
+                for (x, y) in [(a, b), (b, a), (a, a)] {
+                    l.cases += 1;
+                    if let Err(v) = check_pair(run, p, x, y, l) {
+                        run.violate(v);
+                        return;
+                    }
+                }
+            }
+        }
+    });
     // long inputs: each stress string against its lower-cased / width-mapped / space-varied respelling
     let pl: Vec<&str> = PAYLOADS_SPACE.iter().chain(PAYLOADS_FREE.iter()).chain(PAYLOADS_USER.iter()).copied().collect();
     stress(run, "alignment_and_runs", &pl, &|s, l| {
